@@ -5097,12 +5097,12 @@ void UniCompiler::emit_2vs(UniOpVR op, const Operand_& dst_, const Operand_& src
             cc->and_(dst.as<Gp>(), 0xFF);
         }
         else if (op == UniOpVR::kExtractU32) {
-          Vec tmp = new_similar_reg(dst.as<Vec>(), "@tmp");
+          Vec tmp = new_vec128("@tmp");
           cc->pshufd(tmp, src.as<Vec>(), x86::shuffle_imm(idx, idx, idx, idx));
           cc->movd(dst.as<Gp>(), tmp);
         }
         else {
-          Vec tmp = new_similar_reg(dst.as<Vec>(), "@tmp");
+          Vec tmp = new_vec128("@tmp");
           cc->pshufd(tmp, src.as<Vec>(), x86::shuffle_imm(3, 2, 3, 2));
           cc->movq(dst.as<Gp>(), tmp);
         }
